@@ -482,9 +482,11 @@ func runC10Plain(ctx context.Context, c C10Case, e *c10Env) (out c10Outcome) {
 // c10World is a funded renter on a real chain (formation RPCs need a real
 // wallet and transaction pool on the renter side; the scripted host
 // fabricates its own inputs, which a renter cannot check anyway).
-func c10World() (*rhpc.Party, error) {
+func c10World() (*rhpc.Party, error) { return c10WorldFor(c10RenterKey) }
+
+func c10WorldFor(key types.PrivateKey) (*rhpc.Party, error) {
 	n, g := rhpc.Network()
-	r, err := rhpc.NewParty("renter", c10RenterKey, n, g)
+	r, err := rhpc.NewParty("renter", key, n, g)
 	if err != nil {
 		return nil, err
 	}
